@@ -1,6 +1,7 @@
 package checks
 
 import (
+	"strconv"
 	"bytes"
 	"encoding/json"
 	"fmt"
@@ -138,6 +139,32 @@ func c03Eval(c *Config, cs C03Case, measure bool) (res string) {
 			return s
 		}
 		if err == nil && m != nil {
+			phase = "inspecting the decoded message"
+			inspect(c, m)
+		}
+	case strings.HasPrefix(cs.Entry, "stream:"):
+		// messages read one after another from one stream; the exported diam.MessageBufferLength
+		// is set to the i-th listed value before the i-th read
+		var mbls []int
+		for _, f := range strings.Split(strings.TrimPrefix(cs.Entry, "stream:"), ",") {
+			n, _ := strconv.Atoi(f)
+			mbls = append(mbls, n)
+		}
+		old := diam.MessageBufferLength
+		defer func() { diam.MessageBufferLength = old }()
+		rd := bytes.NewReader(cs.Data)
+		for i := 0; i < 8; i++ {
+			if i < len(mbls) {
+				diam.MessageBufferLength = mbls[i]
+			}
+			phase = fmt.Sprintf("reading message %d of the stream", i+1)
+			m, err := diam.ReadMessage(rd, dp)
+			if s := checkAlloc(); s != "" {
+				return s
+			}
+			if err != nil || m == nil {
+				break
+			}
 			phase = "inspecting the decoded message"
 			inspect(c, m)
 		}
@@ -357,6 +384,47 @@ func c03Enum(ctx *ev.Ctx, fn func(*Config, C03Case)) string {
 	}
 	// (i) tiny inputs and headers
 	c0 := cfgs[0]
+	// (0) streams of <=3 pieces read with diam.MessageBufferLength changed between the reads
+	{
+		mk := func(body int) []byte {
+			h := refcodec.Header{Version: 1, Flags: 0x80, Code: 257, HbH: 1, E2E: 1}
+			if body == 0 {
+				return refcodec.EncodeMessage(h, nil)
+			}
+			return refcodec.EncodeMessage(h, []refcodec.Node{{Code: 60001, Payload: make([]byte, body-8)}})
+		}
+		claim := func(l int, supplied int) []byte {
+			return append(refcodec.EncodeHeader(refcodec.Header{Version: 1, Length: uint32(l), Flags: 0x80, Code: 257, HbH: 1, E2E: 1}), make([]byte, supplied)...)
+		}
+		pieces := []struct {
+			name string
+			b    []byte
+			last bool // leaves the stream unusable: only as the last piece
+		}{
+			{"8-byte body", mk(8), false}, {"600-byte body", mk(600), false}, {"2036-byte body", mk(2036), false}, {"5000-byte body", mk(5000), false},
+			{"bare header claiming 2056", claim(2056, 0), true}, {"header claiming 620 + 10 bytes", claim(620, 10), true}, {"header claiming 3000 + 1500 bytes", claim(3000, 1500), true},
+		}
+		mbls := []int{1024, 4096, 512}
+		var rec func(names []string, data []byte, ms []int, closed bool)
+		rec = func(names []string, data []byte, ms []int, closed bool) {
+			if len(names) > 0 {
+				var f []string
+				for _, m := range ms {
+					f = append(f, strconv.Itoa(m))
+				}
+				emit(c0, "stream:"+strings.Join(f, ","), strings.Join(names, " | "), data)
+			}
+			if len(names) == 3 || closed {
+				return
+			}
+			for _, p := range pieces {
+				for _, m := range mbls {
+					rec(append(append([]string{}, names...), p.name), append(append([]byte{}, data...), p.b...), append(append([]int{}, ms...), m), p.last)
+				}
+			}
+		}
+		rec(nil, nil, nil, false)
+	}
 	for _, entry := range []string{"message", "header", "avp", "grouped"} {
 		emit(c0, entry, "empty", nil)
 		for a := 0; a < 256; a++ {
@@ -516,7 +584,7 @@ func c03Enum(ctx *ev.Ctx, fn func(*Config, C03Case)) string {
 			emit(c, "message", fmt.Sprintf("grouped AVP nested in itself %d deep", depth), nestedMessage(c, depth))
 		}
 	}
-	return "(i) every byte string of length <=1 and a lattice of length 2 (thorough: all) on every entry point; 20-byte headers with every declared length 0..2100 and 2^k-1, 2^k, 2^k+1 up to 2^24-1 x 4 commands x R bit, header only and with the body supplied; (ii) AVP shapes code {one per type, vendor variants, groups, undefined} x flags {0,0x20,0x40,0x80,0xC0,0xFF} x declared length 0..44 x bytes available 0..44 (quick: the neighbourhood of declared, multiples of 8) as DecodeAVP input, as message body and as group payload; (iii) every datatype decoder on payloads of 0..24 bytes x 4 fill patterns; (iv) every single structured corruption (each length field to 16 boundary values, every flag bit, code to undefined/0/2^31-1, truncation at every offset with and without a consistent header) of well-formed seeds covering every type and nesting, and every pair of corruptions on small seeds (thorough: triples on one seed); (v) a grouped AVP nested 1..1000 deep in-process with every inspection (String/PrettyDump are cubic in depth), 3000 deep with re-serialisation measured, and 6*10^4 (thorough) and 2*10^6 deep in child processes under an 8 GiB address-space cap. On everything that decodes: String, PrettyDump, Serialize, WriteTo, Unmarshal into CER/CEA/DWR/DWA and a generic struct, FindAVP/FindAVPs/FindAVPsWithPath by code and name. Distinct by (configuration, entry point, bytes)."
+	return "(0) every stream of <=3 pieces over {messages with 8 / 600 / 2036 / 5000-byte bodies, a bare header claiming 2056 bytes, headers claiming 620 / 3000 bytes followed by 10 / 1500} read message by message with the exported diam.MessageBufferLength set to one of {1024, 4096, 512} before each read; (i) every byte string of length <=1 and a lattice of length 2 (thorough: all) on every entry point; 20-byte headers with every declared length 0..2100 and 2^k-1, 2^k, 2^k+1 up to 2^24-1 x 4 commands x R bit, header only and with the body supplied; (ii) AVP shapes code {one per type, vendor variants, groups, undefined} x flags {0,0x20,0x40,0x80,0xC0,0xFF} x declared length 0..44 x bytes available 0..44 (quick: the neighbourhood of declared, multiples of 8) as DecodeAVP input, as message body and as group payload; (iii) every datatype decoder on payloads of 0..24 bytes x 4 fill patterns; (iv) every single structured corruption (each length field to 16 boundary values, every flag bit, code to undefined/0/2^31-1, truncation at every offset with and without a consistent header) of well-formed seeds covering every type and nesting, and every pair of corruptions on small seeds (thorough: triples on one seed); (v) a grouped AVP nested 1..1000 deep in-process with every inspection (String/PrettyDump are cubic in depth), 3000 deep with re-serialisation measured, and 6*10^4 (thorough) and 2*10^6 deep in child processes under an 8 GiB address-space cap. On everything that decodes: String, PrettyDump, Serialize, WriteTo, Unmarshal into CER/CEA/DWR/DWA and a generic struct, FindAVP/FindAVPs/FindAVPsWithPath by code and name. Distinct by (configuration, entry point, bytes)."
 }
 
 func nestedMessage(c *Config, depth int) []byte {
